@@ -19,6 +19,7 @@ func init() {
 			"R2": "unknown participant → error before any ready-group signal; IsReady only on success; own index signalled; no known-nil error returned",
 			"R3": "single completion function: marks all ready, passes a by-value snapshot, invokes the user callback unconditionally; reachable only as OnCompleted callback",
 			"R4": "timeout wiring in both constructors",
+			"R7": "the dependency's ready group takes its read lock twice while validating a signal (C16.R7): the gate adds participants only to a group created in the same function — a set-up that re-arms the group it used before can deadlock, fire early or fire for the superseded set-up when signals are still pending",
 			"R6": "receiver discipline: no method of these types assigns to a field of a value receiver (the assignment would be lost) or copies a sync.* field through its receiver (the gate)",
 			"R5": "rebuilt gate: same completion target, saved game count and participants",
 		},
@@ -87,6 +88,7 @@ func (p *Prog) rgOps(f *ssa.Function, depth int) []rgOp {
 }
 
 func checkC09(c *Ctx) {
+	checkReadyGroupNoRecursiveRLock(c, "R7", "openGameManager", "the gate's ready group")
 	p := c.P
 	checkReceiverDiscipline(c, "R6", p.implementersIn("/open_game_manager", "OpenGameManager"), 8)
 	checkNoKnownNilErrorReturn(c, "R2", func(f *ssa.Function) bool { return inPkg(p, f, "/open_game_manager") && f.Parent() == nil }, 0)
